@@ -38,6 +38,44 @@ func maxUpdateMessageLength(options []*bgp.MarshallingOption) int {
 	return bgp.BGP_MAX_MESSAGE_LENGTH
 }
 
+// as2ConversionGrowth returns the number of octets UpdatePathAttrs2ByteAs and
+// UpdatePathAggregator2ByteAs can add to a message carrying attrs: the sender
+// converts an UPDATE for a 2-octet-AS neighbour after it has been packed, and
+// a message filled up to the limit would exceed it once AS4_PATH and
+// AS4_AGGREGATOR are appended. The octets AS_PATH and AGGREGATOR lose in the
+// conversion are not counted.
+func as2ConversionGrowth(attrs []bgp.PathAttributeInterface) int {
+	growth := 0
+	for _, attr := range attrs {
+		switch a := attr.(type) {
+		case *bgp.PathAttributeAsPath:
+			as4Len := 0
+			need := false
+			for _, param := range a.Value {
+				switch param.GetType() {
+				case bgp.BGP_ASPATH_ATTR_TYPE_CONFED_SEQ, bgp.BGP_ASPATH_ATTR_TYPE_CONFED_SET:
+					continue
+				}
+				asList := param.GetAS()
+				as4Len += 2 + 4*len(asList)
+				for _, as := range asList {
+					if as > 1<<16-1 {
+						need = true
+					}
+				}
+			}
+			if need {
+				growth += 4 + as4Len
+			}
+		case *bgp.PathAttributeAggregator:
+			if a.Value.AS > 1<<16-1 {
+				growth += 3 + 8
+			}
+		}
+	}
+	return growth
+}
+
 func UpdatePathAttrs2ByteAs(msg *bgp.BGPUpdate) {
 	ps := msg.PathAttributes
 	msg.PathAttributes = make([]bgp.PathAttributeInterface, len(ps))
@@ -507,7 +545,7 @@ func (p *packerMP) pack(options ...*bgp.MarshallingOption) []*bgp.BGPMessage {
 				attrsLen += attr.Len()
 			}
 
-			baseReachLen := 19 + 2 + 2 + attrsLen
+			baseReachLen := 19 + 2 + 2 + attrsLen + as2ConversionGrowth(attrsWithoutMPReach)
 			nexthops, _ := getMPReachNexthops(paths[0])
 			sampleNLRI := bgp.PathNLRI{NLRI: paths[0].GetNlri(), ID: paths[0].localID}
 			if sampleReach, err := bgp.NewPathAttributeMpReachNLRI(paths[0].GetFamily(), []bgp.PathNLRI{sampleNLRI}, nexthops...); err == nil {
@@ -658,7 +696,7 @@ func (p *packerV4) pack(options ...*bgp.MarshallingOption) []*bgp.BGPMessage {
 					attrs_without_mp = append(attrs_without_mp, attr)
 				}
 			}
-			attrsLen := 0
+			attrsLen := as2ConversionGrowth(attrs_without_mp)
 			for _, a := range attrs_without_mp {
 				attrsLen += a.Len()
 			}
